@@ -118,6 +118,18 @@ def laws(rng):
         cc = list(ds.filter(pred, lazy=False)) and [v for v in ds.filter(pred, lazy=False) if v in chosen]
         if a != b or (n and a != (cc or [])):
             out.append(('filter_select_commute', {'pipeline': p, 'sel': sel, 'select_then_filter': a, 'filter_then_select': b}))
+        # the same law with a predicate that answers with a number (judged by its truth value), eager and lazy
+        predi = lambda x: x % pm       # noqa
+        try:
+            ai = [list(ds[sel].filter(predi, lazy=lz)) for lz in (True, False)]
+            bi = [[v for v in ds.filter(predi, lazy=lz) if v in chosen] for lz in (True, False)]
+        except Exception as e:  # noqa
+            out.append(('filter_select_commute', {'pipeline': p, 'sel': sel, 'predicate': 'x %% %d' % pm, 'error': repr(e)[:200]}))
+        else:
+            wanti = [v for v in list(ds[sel]) if v % pm]
+            if ai != [wanti, wanti] or bi != [wanti, wanti]:
+                out.append(('filter_select_commute', {'pipeline': p, 'sel': sel, 'predicate': 'x %% %d' % pm, 'select_then_filter_lazy_eager': ai,
+                                                      'filter_then_select_lazy_eager': bi, 'want': wanti}))
         r = rng.randint(1, 3)
         law('tile_eq_concat', lambda: ds.tile(r), lambda: lazy_dataset.concatenate(*([ds] * r)), ('iter', 'len', 'gets'), {'reps': r})
         # tile(r, shuffle=True) is the concatenation of r independently shuffled views (same draws from the global generator)
